@@ -135,8 +135,19 @@ func genValidConfig(r R) cors.Config {
 		if r.chance(1, 6) {
 			sch := r.pick([]string{"https", "https", "http"})
 			port := r.pick([]string{"", "", ":8443", ":*"})
-			for _, h := range genSiblings(r, genCount(r)) {
+			sibs := genSiblings(r, genCount(r))
+			for _, h := range sibs {
 				c.Origins = append(c.Origins, sch+"://"+r.pick([]string{"", "", "", "*."})+h+port)
+				if r.chance(1, 4) { // the same host with one more port / under the other scheme
+					c.Origins = append(c.Origins, r.pick([]string{sch, "https"})+"://"+h+r.pick([]string{":8443", ":9000", ":*"}))
+				}
+			}
+			if len(sibs) > 0 && r.chance(1, 2) { // a wildcard over the siblings' common parent, before, after or among them
+				if i := strings.IndexByte(sibs[0], '.'); i >= 0 {
+					w := sch + "://*." + sibs[0][i+1:] + r.pick([]string{port, port, ":8443", ":*"})
+					k := r.Intn(len(c.Origins) + 1)
+					c.Origins = append(c.Origins[:k], append([]string{w}, c.Origins[k:]...)...)
+				}
 			}
 			if sch == "http" && (c.Credentialed || c.PrivateNetworkAccess || c.PrivateNetworkAccessInNoCORSModeOnly) {
 				c.DangerouslyTolerateInsecureOrigins = true
